@@ -34,19 +34,44 @@
 
 #include "zck_private.h"
 
+/* Return a copy of str with every character that is special in a POSIX
+ * extended regular expression escaped, so it only matches itself */
+static char *quote_for_regex(const char *str) {
+    char *quoted = zmalloc(2*strlen(str) + 1);
+    if(!quoted)
+        return NULL;
+    size_t q = 0;
+    for(const char *c = str; *c != '\0'; c++) {
+        if(strchr("\\^$.[]|()*+?{}", *c) != NULL)
+            quoted[q++] = '\\';
+        quoted[q++] = *c;
+    }
+    quoted[q] = '\0';
+    return quoted;
+}
+
 static char *add_boundary_to_regex(zckCtx *zck, const char *regex,
                                    const char *boundary) {
     VALIDATE_PTR(zck);
 
     if(regex == NULL || boundary == NULL)
         return NULL;
-    char *regex_b = zmalloc(strlen(regex) + strlen(boundary) + 1);
-    if(!regex_b || snprintf(regex_b, strlen(regex) + strlen(boundary), regex,
-                boundary) != strlen(regex) + strlen(boundary) - 2) {
-        free(regex_b);
+    /* The boundary comes from the server and may legally contain characters
+     * such as ( ) + ? and . which must not change the meaning of the pattern */
+    char *quoted = quote_for_regex(boundary);
+    if(quoted == NULL) {
         set_error(zck, "Unable to build regular expression");
         return NULL;
     }
+    char *regex_b = zmalloc(strlen(regex) + strlen(quoted) + 1);
+    if(!regex_b || snprintf(regex_b, strlen(regex) + strlen(quoted), regex,
+                quoted) != strlen(regex) + strlen(quoted) - 2) {
+        free(regex_b);
+        free(quoted);
+        set_error(zck, "Unable to build regular expression");
+        return NULL;
+    }
+    free(quoted);
     return regex_b;
 }
 
